@@ -139,11 +139,11 @@ type invokeSum struct {
 }
 
 type ownSummary struct {
-	writes  map[srcRef]writeInfo
-	own     []map[srcRef]guard
-	nodes   []map[int]map[srcRef]bool // returned fresh shape graph: node -> selector -> targets (kFresh.param = node index)
+	writes    map[srcRef]writeInfo
+	own       []map[srcRef]guard
+	nodes     []map[int]map[srcRef]bool // returned fresh shape graph: node -> selector -> targets (kFresh.param = node index)
 	nodeTypes []string
-	invokes []invokeSum
+	invokes   []invokeSum
 }
 
 func (s *ownSummary) key() string {
@@ -175,16 +175,18 @@ func (s *ownSummary) key() string {
 }
 
 type ownEngine struct {
-	c         *core.Ctx
-	prog      *ssa.Program
-	sums      map[*ssa.Function]*ownSummary
-	byMethod  map[string][]*ssa.Function // method name -> in-module implementations (package mutable excluded)
-	assumedRO map[string]bool
-	last      map[*ssa.Function]*funcOwn
-	steps     int
-	opaqueRecv func(types.Type) bool
-	implCache map[implKey][]*ssa.Function
-	msCache   map[types.Type]*types.MethodSet
+	c              *core.Ctx
+	prog           *ssa.Program
+	sums           map[*ssa.Function]*ownSummary
+	byMethod       map[string][]*ssa.Function // method name -> in-module implementations (package mutable excluded)
+	assumedRO      map[string]bool
+	last           map[*ssa.Function]*funcOwn
+	steps          int
+	opaqueRecv     func(types.Type) bool
+	scope          map[string]bool
+	includeMutable bool
+	implCache      map[implKey][]*ssa.Function
+	msCache        map[types.Type]*types.MethodSet
 }
 
 type funcOwn struct {
@@ -250,23 +252,26 @@ func pointerLikeD(t types.Type, d int) bool {
 func newOwnEngine(c *core.Ctx) *ownEngine {
 	prog, _ := c.SSA()
 	e := &ownEngine{c: c, prog: prog, sums: map[*ssa.Function]*ownSummary{}, byMethod: map[string][]*ssa.Function{}, assumedRO: map[string]bool{}, last: map[*ssa.Function]*funcOwn{}, implCache: map[implKey][]*ssa.Function{}, msCache: map[types.Type]*types.MethodSet{}}
-	for _, fn := range srcFuncs(c) {
-		if fn.Parent() != nil || fn.Signature.Recv() == nil {
-			continue
-		}
-		if fn.Pkg != nil && strings.HasSuffix(fn.Pkg.Pkg.Path(), "/mutable") {
-			continue
-		}
-		e.byMethod[fn.Name()] = append(e.byMethod[fn.Name()], fn)
-	}
 	return e
 }
 
 // run computes summaries for the given declared functions to a fixpoint (dependency-driven worklist).
 func (e *ownEngine) run() {
-	inScope := map[string]bool{}
-	for _, p := range libPkgs(e.c) {
-		inScope[p.PkgPath] = true
+	for _, fn := range srcFuncs(e.c) {
+		if fn.Parent() != nil || fn.Signature.Recv() == nil {
+			continue
+		}
+		if !e.includeMutable && fn.Pkg != nil && strings.HasSuffix(fn.Pkg.Pkg.Path(), "/mutable") {
+			continue
+		}
+		e.byMethod[fn.Name()] = append(e.byMethod[fn.Name()], fn)
+	}
+	inScope := e.scope
+	if inScope == nil {
+		inScope = map[string]bool{}
+		for _, p := range libPkgs(e.c) {
+			inScope[p.PkgPath] = true
+		}
 	}
 	var tops []*ssa.Function
 	for _, fn := range srcFuncs(e.c) {
@@ -647,6 +652,10 @@ func (fo *funcOwn) storeInto(p ptr, vals ptsSet) {
 
 func (fo *funcOwn) write(l *loc, g guard, pos token.Pos, how string) {
 	if old, ok := fo.written[l]; ok {
+		if old.g == g && strings.HasPrefix(old.how, "call of") && !strings.HasPrefix(how, "call of") {
+			old.pos, old.how = pos, how // prefer the direct write as the witness
+			fo.written[l] = old
+		}
 		n := old.g & g
 		if n != old.g {
 			old.g = n
@@ -1603,4 +1612,13 @@ func (fo *funcOwn) mark(line int) {
 		}
 		fo.marks[line]++
 	}
+}
+
+func sortFuncs(fns []*ssa.Function) {
+	sort.Slice(fns, func(i, j int) bool {
+		if fns[i].Pos() != fns[j].Pos() {
+			return fns[i].Pos() < fns[j].Pos()
+		}
+		return fns[i].String() < fns[j].String()
+	})
 }
